@@ -7,6 +7,7 @@ every run (vf/pyvc/crosscheck.py).
 """
 import hashlib
 import os
+import re as _re
 import subprocess
 import tempfile
 import time
@@ -132,6 +133,16 @@ def axioms():
     return _AX
 
 
+GROUND_CF = {}
+
+
+def note_casefold(lit):
+    """the engine evaluates casefold of a literal with CPython; tell the solver the same fact"""
+    if lit not in GROUND_CF:
+        GROUND_CF[lit] = casefold(z3.StringVal(lit)) == z3.StringVal(lit.casefold())
+    return lit.casefold()
+
+
 def int_of_str(s):
     """value of int(s) where it is defined by digits; otherwise uninterpreted"""
     return z3.If(
@@ -160,29 +171,97 @@ Z3_NEW = "/usr/local/bin/z3-new"
 CVC5 = "/usr/bin/cvc5"
 
 
-def uses(term_list, name):
+_info_cache = {}
+_keep_alive = []
+
+
+def term_info(t):
+    """(all declaration names, ground pyslice applications) of a term, cached by ast id"""
+    k = t.get_id()
+    r = _info_cache.get(k)
+    if r is not None:
+        return r
+    names = set()
+    slices = {}
     seen = set()
-    stack = list(term_list)
+    stack = [(t, False)]
     while stack:
-        t = stack.pop()
-        if t.get_id() in seen:
+        x, under = stack.pop()
+        xid = (x.get_id(), under)
+        if xid in seen:
             continue
-        seen.add(t.get_id())
-        if z3.is_app(t):
-            if t.decl().name() == name:
-                return True
-            stack.extend(t.children())
-        elif z3.is_quantifier(t):
-            stack.append(t.body())
-    return False
+        seen.add(xid)
+        if z3.is_quantifier(x):
+            stack.append((x.body(), True))
+        elif z3.is_app(x):
+            nm = x.decl().name()
+            names.add(nm)
+            if nm == "pyslice" and not under and x.num_args() == 3:
+                slices[x.get_id()] = x
+            for c in x.children():
+                stack.append((c, under))
+    r = (frozenset(names), list(slices.values()))
+    _info_cache[k] = r
+    _keep_alive.append(t)  # ids are only stable while the term is alive
+    return r
+
+
+def uses(term_list, name):
+    return any(name in term_info(t)[0] for t in term_list)
+
+
+def _ground_slices(terms):
+    """ground applications of pyslice (not below a binder)"""
+    out = {}
+    for t in terms:
+        for g in term_info(t)[1]:
+            out[g.get_id()] = g
+    return list(out.values())
+
+
+_len_lemma_cache = {}
+
+
+def slice_len_lemma(t):
+    """instance of: len(s[lo:hi]) == max(clamp(hi) - clamp(lo), 0)  (proved from the definition as a
+    lemma obligation on every run, see lemmas.py)"""
+    k = t.get_id()
+    if k in _len_lemma_cache:
+        return _len_lemma_cache[k]
+    s_, lo, hi = t.children()
+    n = z3.Length(s_)
+    a, b = _clampidx(lo, n), _clampidx(hi, n)
+    r = z3.Length(t) == z3.If(b - a > 0, b - a, z3.IntVal(0))
+    _len_lemma_cache[k] = r
+    _keep_alive.append(t)
+    return r
+
+
+def slice_split_lemmas(gsl):
+    """instances of: s[:k] + s[k:] == s  (valid for every int k; lemma obligation in lemmas.py)"""
+    out = []
+    heads = [t for t in gsl if z3.is_int_value(t.arg(1)) and t.arg(1).as_long() == 0]
+    for h in heads:
+        for t in gsl:
+            if t.arg(0).eq(h.arg(0)) and t.arg(1).eq(h.arg(2)) and t.arg(2).eq(z3.Length(t.arg(0))):
+                out.append(h.arg(0) == z3.Concat(h, t))
+    return out
 
 
 def to_smt2(hyps, neg_goal, extra_axioms=()):
     s = z3.Solver()
     ax = axioms()
     terms = list(hyps) + [neg_goal]
+    gsl = _ground_slices(terms)
+    for gt in gsl:
+        s.add(slice_len_lemma(gt))
+    for lem in slice_split_lemmas(gsl):
+        s.add(lem)
     for name, a in ax.items():
         if uses(terms, name):
+            s.add(a)
+    if GROUND_CF and uses(terms, "casefold"):
+        for a in GROUND_CF.values():
             s.add(a)
     for a in extra_axioms:
         s.add(a)
@@ -190,20 +269,247 @@ def to_smt2(hyps, neg_goal, extra_axioms=()):
         s.add(h)
     s.add(neg_goal)
     txt = s.to_smt2()
+    # z3 prints applications of define-fun-rec symbols as ((_ f 0) ...): not SMT-LIB
+    txt = _re.sub(r"\(_ ([A-Za-z_][A-Za-z_0-9!]*) 0\)", r"\1", txt)
     return "(set-logic ALL)\n" + txt
 
 
-def quick_check(hyps, extra=None, rlimit=400000):
-    """Deterministic (rlimit) feasibility check used while forking. Returns 'sat'/'unsat'/'unknown'."""
+def _syms(t, cache={}):
+    """uninterpreted constants / functions occurring in a term"""
+    k = t.get_id()
+    if k in cache:
+        return cache[k]
+    out = set()
+    stack = [t]
+    seen = set()
+    while stack:
+        x = stack.pop()
+        if x.get_id() in seen:
+            continue
+        seen.add(x.get_id())
+        if z3.is_quantifier(x):
+            stack.append(x.body())
+        elif z3.is_app(x):
+            d = x.decl()
+            if d.kind() == z3.Z3_OP_UNINTERPRETED or d.kind() == z3.Z3_OP_RECURSIVE:
+                if x.num_args() == 0 or d.kind() == z3.Z3_OP_UNINTERPRETED:
+                    out.add(d.name())
+            stack.extend(x.children())
+    cache[k] = frozenset(out)
+    _keep_alive.append(t)
+    return cache[k]
+
+
+GLOBAL_FUNS = {"casefold", "pyslice", "nobr", "obj_tag", "obj_str", "obj_int", "obj_bool", "obj_truthy",
+               "obj_isinst", "pystr_of_obj", "is_py_literal", "lit_eval", "float_of_str", "py_int_of"}
+
+
+def slice_hyps(hyps, goal, depth, qf_only):
+    """relevance cone of the goal's symbols (dropping hypotheses is sound)"""
+    cone = set(_syms(goal)) - GLOBAL_FUNS
+    if not cone:
+        for h in reversed(hyps):
+            if not _has_quant(h):
+                cone |= set(_syms(h)) - GLOBAL_FUNS
+                if len(cone) >= 1:
+                    break
+    keep = [False] * len(hyps)
+    hs = [set(_syms(h)) - GLOBAL_FUNS for h in hyps]
+    for _ in range(depth):
+        grew = False
+        for i, h in enumerate(hyps):
+            if keep[i]:
+                continue
+            if qf_only and _has_quant(h):
+                continue
+            if hs[i] & cone:
+                keep[i] = True
+                if not (hs[i] <= cone):
+                    cone |= hs[i]
+                    grew = True
+        if not grew:
+            break
+    return [h for i, h in enumerate(hyps) if keep[i]]
+
+
+def _match_paren(txt, i):
+    depth = 0
+    k = i
+    in_str = False
+    while k < len(txt):
+        ch = txt[k]
+        if in_str:
+            if ch == '"':
+                if k + 1 < len(txt) and txt[k + 1] == '"':
+                    k += 1
+                else:
+                    in_str = False
+        elif ch == '"':
+            in_str = True
+        elif ch == "(":
+            depth += 1
+        elif ch == ")":
+            depth -= 1
+            if depth == 0:
+                return k
+        k += 1
+    raise ValueError("unbalanced")
+
+
+def _top_items(txt):
+    """top-level parenthesised items of an s-expression body"""
+    items = []
+    k = 0
+    while k < len(txt):
+        if txt[k] == "(":
+            e = _match_paren(txt, k)
+            items.append(txt[k:e + 1])
+            k = e + 1
+        else:
+            k += 1
+    return items
+
+
+def formulations(txt):
+    """SMT2 text with define-funs-rec -> {'abs': uninterpreted, 'pat': pattern axioms, 'rec': as is}.
+    'abs' and 'pat' have fewer / equivalent hypotheses: unsat there is sound; sat counts only for
+    'rec'/'pat' (complete definitions)."""
+    out = {"rec": txt}
+    i = txt.find("(define-funs-rec")
+    if i < 0:
+        return {"rec": txt}
+    abs_txt, pat_txt = txt, txt
+    while i >= 0:
+        e = _match_paren(abs_txt, i)
+        block = abs_txt[i:e + 1]
+        inner = block[len("(define-funs-rec"):-1].strip()
+        sigs_txt, bodies_txt = _top_items(inner)
+        sigs = _top_items(sigs_txt[1:-1])
+        bodies = _top_items(bodies_txt[1:-1])
+        if len(bodies) != len(sigs):  # bodies that are atoms: fall back
+            return {"rec": txt}
+        decls, axs = [], []
+        for sg, body in zip(sigs, bodies):
+            sg_in = sg[1:-1].strip()
+            name = sg_in.split()[0]
+            rest = sg_in[len(name):].strip()
+            pe = _match_paren(rest, 0)
+            params = _top_items(rest[1:pe])
+            ret = rest[pe + 1:].strip()
+            sorts = " ".join(pp[1:-1].split(None, 1)[1] for pp in params)
+            names = " ".join(pp[1:-1].split()[0] for pp in params)
+            decls.append("(declare-fun %s (%s) %s)" % (name, sorts, ret))
+            recursive = _re.search(r"[( ]%s[ )]" % _re.escape(name), body) is not None
+            if not recursive:
+                axs.append("(assert (forall (%s) (! (= (%s %s) %s) :pattern ((%s %s)))))" % (
+                    " ".join(params), name, names, body, name, names))
+        abs_txt = abs_txt[:i] + "\n".join(decls) + abs_txt[e + 1:]
+        j = pat_txt.find("(define-funs-rec")
+        e2 = _match_paren(pat_txt, j)
+        pat_txt = pat_txt[:j] + "\n".join(decls + axs) + pat_txt[e2 + 1:]
+        i = abs_txt.find("(define-funs-rec")
+    out["abs"] = abs_txt
+    if "define-funs-rec" not in pat_txt:
+        out["pat"] = pat_txt
+    return out
+
+
+def split_goal(hyps, goal, depth=0):
+    """Skolemise-and-split (DESIGN 2.3): returns [(hyps, goal)] whose conjunction implies the goal.
+    - forall x. g      -> g[x := fresh]
+    - g1 and g2        -> one sub-goal each
+    - a => g, (not a) or g  -> a moved to the hypotheses
+    Sound: each step is an equivalence-preserving rewriting of `hyps |- goal`."""
+    if isinstance(goal, bool):
+        goal = z3.BoolVal(goal)
+    if depth > 12:
+        return [(hyps, goal)]
+    if z3.is_quantifier(goal) and goal.is_forall():
+        n = goal.num_vars()
+        consts = [fresh("sk_" + goal.var_name(i), goal.var_sort(i)) for i in range(n)]
+        body = z3.substitute_vars(goal.body(), *reversed(consts))
+        return split_goal(hyps, body, depth + 1)
+    if z3.is_and(goal):
+        out = []
+        for g in goal.children():
+            out.extend(split_goal(hyps, g, depth + 1))
+        return out
+    if z3.is_implies(goal):
+        a, b = goal.children()
+        return split_goal(list(hyps) + [a], b, depth + 1)
+    if z3.is_or(goal):
+        ch = goal.children()
+        qi = [i for i, c in enumerate(ch) if _has_quant(c) or z3.is_and(c)]
+        if qi:
+            k = qi[-1]
+            rest = [z3.Not(c) for i, c in enumerate(ch) if i != k]
+            return split_goal(list(hyps) + rest, ch[k], depth + 1)
+    if z3.is_not(goal):
+        (c,) = goal.children()
+        if z3.is_quantifier(c) and not c.is_forall():  # not exists == forall not
+            n = c.num_vars()
+            consts = [fresh("sk_" + c.var_name(i), c.var_sort(i)) for i in range(n)]
+            body = z3.substitute_vars(c.body(), *reversed(consts))
+            return split_goal(hyps, z3.Not(body), depth + 1)
+        if z3.is_or(c):
+            out = []
+            for g in c.children():
+                out.extend(split_goal(hyps, z3.Not(g), depth + 1))
+            return out
+    return [(hyps, goal)]
+
+
+def quick_check(hyps, extra=None, rlimit=150000):
+    """Deterministic (rlimit) feasibility check used while forking. Returns 'sat'/'unsat'/'unknown'.
+    Only the quantifier-free hypotheses in the relevance cone of `extra` are used: an unsat subset
+    makes the whole path condition unsat, so pruning on it is sound."""
+    hs = [h for h in hyps if not _has_quant(h)]
+    if extra is not None:
+        # stage 1: hypotheses sharing a boolean atom with the condition (propositional core)
+        at = _atoms(extra)
+        core = [h for h in hs if _atoms(h) & at]
+        if core:
+            s1 = z3.Solver()
+            s1.set("rlimit", 50000)
+            for h in core:
+                s1.add(h)
+            s1.add(extra)
+            if s1.check() == z3.unsat:
+                return "unsat"
     s = z3.Solver()
     s.set("rlimit", rlimit)
-    for h in hyps:
-        if not (z3.is_quantifier(h) or _has_quant(h)):
-            s.add(h)
+    if extra is not None:
+        hs = slice_hyps(hs, extra, 3, True)
+    for h in hs:
+        s.add(h)
     if extra is not None:
         s.add(extra)
     r = s.check()
     return str(r)
+
+
+_atom_cache = {}
+
+
+def _atoms(t):
+    k = t.get_id()
+    if k in _atom_cache:
+        return _atom_cache[k]
+    out = set()
+    stack = [t]
+    while stack:
+        x = stack.pop()
+        if z3.is_quantifier(x):
+            continue
+        if z3.is_app(x) and (z3.is_and(x) or z3.is_or(x) or z3.is_not(x) or z3.is_implies(x)):
+            stack.extend(x.children())
+        elif z3.is_app(x) and x.decl().kind() == z3.Z3_OP_ITE and z3.is_bool(x):
+            stack.extend(x.children())
+        elif z3.is_bool(x):
+            out.add(x.get_id())
+    _keep_alive.append(t)
+    _atom_cache[k] = frozenset(out)
+    return _atom_cache[k]
 
 
 _quant_cache = {}
@@ -221,6 +527,7 @@ def _has_quant(t):
             if _has_quant(c):
                 r = True
                 break
+    _keep_alive.append(t)
     _quant_cache[k] = r
     return r
 
